@@ -456,7 +456,11 @@ func genCaseC04(r *hlib.Rng, res *hlib.Result, i int) []string {
 				k = srv.keys[len(srv.keys)-1] // the deepest key
 			}
 			sib := r.Intn(2)
-			lines = append(lines, fmt.Sprintf("get %d %d %s", v, sib, hx(k)))
+			fp := ""
+			if r.Chance(1, 4) {
+				fp = []string{" fp0", " fp1"}[r.Intn(2)]
+			}
+			lines = append(lines, fmt.Sprintf("get %d %d %s%s", v, sib, hx(k), fp))
 			if rsp, err := srv.tree.SyncGet(ctx, &syncer.GetRequest{Tree: rootPos, Key: k, IncludeSiblings: sib == 1, ProofVersion: uint16(v)}); err == nil {
 				honest = append(honest, &rsp.Proof)
 				honestKeys = append(honestKeys, k)
